@@ -962,8 +962,9 @@ def case_respell(ctx, gtype, cons, arglists, nseeds):
 
 
 # ----------------------------------------------------------------- graphs read from files, then modified
+os.environ.setdefault("VMONVAR", "expanded")
 ODD_FILE_NAMES = ["plain", "net{v2}", "K{}", "B{left}", "{0}", "}{", "{", "a{0!r}b", "{{x}}", "100%", "a%sb", "%(x)s", "two words", "caf\u00e9",
-                  "$(x)", "semi;colon", "it's", 'q"uote', "back\\slash", "star*", "tilde~", "hash#1", "c", "p edge", "+ 3 random edges"]
+                  "$(x)", "in$VMONVAR", "${VMONVAR}", "cost$", "~tilde", "semi;colon", "it's", 'q"uote', "back\\slash", "star*", "tilde~", "hash#1", "c", "p edge", "+ 3 random edges"]
 
 
 def case_file_base(ctx, gtype, nseeds):
